@@ -114,10 +114,18 @@ fn_names_that_contradict_windowed_situation = set()
 # operator is one of these (instead of forbid)
 # noinspection SpellCheckingInspection
 fn_names_that_contradict_ordered_windowed_situation = {
+    "all",
+    "any",
+    "any_value",
     "count",
     "max",
+    "mean",
+    "median",
     "min",
+    "nunique",
     "prod",
+    "size",
+    "_size",
     "sum",
     "std",
     "var",
